@@ -698,6 +698,31 @@ fn corruptions<T: Datum>(seg: &Segment<T>, info: &SegInfo, t: &RefTree, bm: Opti
 		let id2 = SegmentIdentifier { height: h2, idx: i2 };
 		push(class, true, rebuild(id2, hp.clone(), hs.clone(), lp.clone(), ld.clone(), pr.clone()));
 	}
+	// a fully spent segment claimed to be part of a larger "pruned" subtree that in fact holds unspent
+	// leaves: only the (true) hash of that larger ancestor and the proof from there
+	if let (Some(q), Some(b)) = (info.pruned_anchor, bm) {
+		let mut cur = q as usize;
+		let mut k = 0usize;
+		let mut target = None;
+		while let Some(par) = t.m.nodes[cur].parent {
+			cur = par;
+			k += 1;
+			if b.range_cardinality(t.lo[cur] as u32..(t.hi[cur] + 1) as u32) > 0 {
+				target = Some(cur);
+				break;
+			}
+		}
+		if let Some(u) = target {
+			if k <= prh.len() {
+				let q2: Vec<Hash> = prh[k..].to_vec();
+				push(
+					"pruned_claim_over_unspent",
+					true,
+					rebuild(id, vec![u as u64], vec![t.m.nodes[u].hash], vec![], vec![], make_proof(&q2)),
+				);
+			}
+		}
+	}
 	// a spent leaf nobody needs, replaced by a bogus hash at its position (validation may not care;
 	// a receiver that applied it would build another MMR: final-state clause)
 	{
@@ -1366,6 +1391,10 @@ fn coins_by_age(h: &mut Hist, tip: &Hash) -> Vec<(u64, Coin)> {
 			if coin.coinbase && next_h < st.outs[i].height + mat {
 				continue;
 			}
+			// dust is left alone: a transaction must be able to pay its fee
+			if coin.value < 50_000_000 {
+				continue;
+			}
 			v.push((i as u64, coin.clone()));
 		}
 	}
@@ -1736,9 +1765,9 @@ fn check_chain_segments(run: &Run, src: &Source, set: &SegSet, p: &mut Prng, per
 		return pool;
 	}
 	// kernels
+	let ks = src.w.h.ledger.kernels_of(&src.archive.hash());
 	for seg in &set.kernel {
 		let validate = |s: &Segment<TxKernel>| s.validate(ksize, None, hdr.kernel_root);
-		let ks = src.w.h.ledger.kernels_of(&src.archive.hash());
 		let truth = |pos: u64, d: &TxKernel| src.t_kern.m.nodes.get(pos as usize).and_then(|n| n.leaf_idx).map(|li| ser_bytes(&ks[li as usize]) == ser_bytes(d)).unwrap_or(false);
 		for c in check_segment(run, &mut st, "b", "kernel", state, seg, &src.t_kern, None, &validate, &truth, p, per_class, &rp("kernel", seg.identifier())) {
 			if c.must_fail || c.class == "extra_hash_added" || c.class == "spent_leaf_replaced_by_bogus_hash" {
@@ -2359,8 +2388,6 @@ fn tip_phase(src: &Source, chain: &Chain) -> Option<(String, String)> {
 		Ok(s) => s,
 		Err(e) => return Some(("tip_snapshot_failed".into(), e)),
 	};
-	let mut h = src.tip_snap.head.0;
-	let _ = &mut h;
 	let t = &src.tip_snap;
 	macro_rules! cmp {
 		($f:ident) => {
@@ -2716,7 +2743,7 @@ fn hostile_zip(kit: &ZipKit, src: &Source, variant: usize, p: &mut Prng) -> Opti
 		}
 		16 if src.state_class == "compacted" => rezip("output_prune_list_byte_flipped".into(), files.clone(), &flip_at("output/pmmr_prun.bin".into(), None, (1, 2), 0x01)),
 		17 => {
-			// output data and hash files swapped with the rangeproof ones' leaf set
+			// the leaf sets of the two prunable trees swapped
 			rezip("leaf_sets_swapped".into(), files.clone(), &|w: &str| {
 				let a = format!("{}/output/pmmr_leaf.bin.{}", w, ah);
 				let b = format!("{}/rangeproof/pmmr_leaf.bin.{}", w, ah);
@@ -2732,7 +2759,13 @@ fn hostile_zip(kit: &ZipKit, src: &Source, variant: usize, p: &mut Prng) -> Opti
 
 const N_ZIP_VARIANTS: usize = 18;
 
-/// Feed one archive to a receiver. Ok(true): finalised; Ok(false): refused.
+thread_local! {
+	/// why the last archive was refused (error class or panic location)
+	static ZIP_LAST: std::cell::RefCell<String> = std::cell::RefCell::new(String::new());
+}
+
+/// Feed one archive to a receiver the way the adapter does. Ok(true): finalised; Ok(false): refused
+/// (reason in ZIP_LAST, sandbox cleaned); Err: harness I/O problem.
 fn feed_zip(rx: &Rx, src: &Source, bytes: &[u8], tag: &str) -> Result<bool, String> {
 	let path = format!("{}/in_{}.zip", rx.root, tag);
 	std::fs::write(&path, bytes).map_err(|e| e.to_string())?;
@@ -2741,23 +2774,15 @@ fn feed_zip(rx: &Rx, src: &Source, bytes: &[u8], tag: &str) -> Result<bool, Stri
 	let ah = src.archive.hash();
 	let r = catch(|| rx.chain.txhashset_write(ah, f, &status));
 	let _ = std::fs::remove_file(&path);
-	match r {
-		Ok(Ok(false)) => Ok(true),
-		Ok(Ok(true)) => Err("bad_data_flag".into()),
-		Ok(Err(e)) => {
-			rx.chain.clean_txhashset_sandbox();
-			Err(format!("refused:{}", err_class(&e)))
-		}
-		Err(p) => {
-			rx.chain.clean_txhashset_sandbox();
-			Err(format!("panic@{}", rel_loc(&p.location)))
-		}
-	}
-	.or_else(|e| if e == "bad_data_flag" || e.starts_with("refused") || e.starts_with("panic") { ZIP_LAST.with(|l| *l.borrow_mut() = e); Ok(false) } else { Err(e) })
-}
-
-thread_local! {
-	static ZIP_LAST: std::cell::RefCell<String> = std::cell::RefCell::new(String::new());
+	let why = match r {
+		Ok(Ok(false)) => return Ok(true),
+		Ok(Ok(true)) => "refused:bad_data_flag".to_string(),
+		Ok(Err(e)) => format!("refused:{}", err_class(&e)),
+		Err(p) => format!("panic@{}", rel_loc(&p.location)),
+	};
+	rx.chain.clean_txhashset_sandbox();
+	ZIP_LAST.with(|l| *l.borrow_mut() = why);
+	Ok(false)
 }
 
 /// Honest archive → same comparisons as the segment path, then to the tip.
@@ -2990,7 +3015,7 @@ fn fork_segments(run: &Run, src: &mut Source) -> Option<SegSet> {
 
 fn chain_worker(run: &Run, shard: usize, san: bool) {
 	let start = Instant::now();
-	let budget = if san { 200.0 } else { run.tier.pick(80.0, 600.0) };
+	let budget = if san { 200.0 } else { run.tier.pick(80.0, 540.0) };
 	let mut round = 0usize;
 	loop {
 		let id = shard + 13 * round;
@@ -3107,7 +3132,7 @@ fn chain_source(run: &Run, shard: usize, san: bool, budget: f64) {
 		if n >= 3 && left < est * 1.3 {
 			break;
 		}
-		if n >= run.tier.pick(10, 16) || (san && n >= 2) || (cfg.big && n >= 4) {
+		if n >= run.tier.pick(10, 16) || (san && n >= 3) || (cfg.big && n >= 4) {
 			break;
 		}
 		let t = Instant::now();
@@ -3207,6 +3232,10 @@ fn main() {
 			"a relabelled fully pruned segment validates under every identifier whose range lies below the same spent ancestor: the honest segments of those identifiers are identical"
 		]),
 	);
+	run.extra(
+		"reproduce",
+		json!("chain-level replay files carry the source id as \"shard\": `c16 --tier <tier> --seed <seed> --source <shard>` rebuilds that source and runs its receivers in the foreground; store-level ones carry the program number (programs are a function of seed and number)"),
+	);
 	let n_workers = if san { 2 } else { 16 };
 	run.spawn_workers(n_workers, &[], run.tier.pick(170, 900));
 	if !san {
@@ -3218,6 +3247,8 @@ fn main() {
 			run.require(&format!("a.corruption_refused.{}", c), run.counter(&format!("a.corruption_refused.{}", c)), q(500, 5000));
 			run.require(&format!("b.corruption_refused.{}", c), run.counter(&format!("b.corruption_refused.{}", c)), q(20, 100));
 		}
+		run.require("a.corruption_refused.pruned_claim_over_unspent", run.counter("a.corruption_refused.pruned_claim_over_unspent"), q(500, 5000));
+		run.require("b.corruption_refused.pruned_claim_over_unspent", run.counter("b.corruption_refused.pruned_claim_over_unspent"), q(20, 100));
 		run.require("a.compactions", run.counter("a.compactions"), q(100, 1000));
 		run.require("a.beyond_mmr_refused", run.counter("a.beyond_mmr_refused"), q(1000, 10000));
 		for t in ["bitmap", "output", "rangeproof", "kernel"] {
